@@ -6,6 +6,7 @@ import Driver.Fetch
 import Driver.Codec
 import Driver.Conc
 import Driver.Crash
+import Driver.OMap
 /-! `modeldriver <stream>`: reads a trace on stdin, replays it on the model, prints DIFF / SPEC lines
 and a final `SUMMARY` line with the counts of comparisons and predicate evaluations. -/
 open Driver
@@ -74,11 +75,24 @@ partial def crashLoop (h : IO.FS.Stream) (s : KSt) : IO KSt := do
   for m in s.out do IO.println m
   crashLoop h { s with out := #[] }
 
+partial def omapLoop (h : IO.FS.Stream) (s : Driver.OMap.MSt) : IO Driver.OMap.MSt := do
+  let line ← h.getLine
+  if line.isEmpty then return s
+  let line := if line.back == '\n' then (line.dropEnd 1).toString else line
+  let s := Driver.OMap.handleOMap s line
+  for m in s.out do IO.println m
+  omapLoop h { s with out := #[] }
+
 def main (args : List String) : IO UInt32 := do
   let stdin ← IO.getStdin
   match args with
   | ["core"] =>
     let s ← coreLoop stdin {}
+    let cs := s.checks.toList.map (fun (k, v) => s!"{k}={v}")
+    IO.println s!"SUMMARY lines={s.lineNo} diffs={s.diffs} specfails={s.specFails} {" ".intercalate cs}"
+    return 0
+  | ["omap"] =>
+    let s ← omapLoop stdin {}
     let cs := s.checks.toList.map (fun (k, v) => s!"{k}={v}")
     IO.println s!"SUMMARY lines={s.lineNo} diffs={s.diffs} specfails={s.specFails} {" ".intercalate cs}"
     return 0
